@@ -283,6 +283,14 @@ func (Garbage) Run(c *orch.Case) *orch.Outcome {
 		enc = in.Blob
 	case in.Class == "alg_slot":
 		enc = algSlot(in.Base, in.Pos, in.Blob, isDec)
+	case in.Class == "id_chars":
+		d := etree.NewDocument()
+		if err := d.ReadFromBytes(bases[in.Base]); err != nil {
+			panic(err)
+		}
+		d.Root().CreateAttr("ID", in.Blob)
+		b, _ := d.WriteToBytes()
+		enc = idp.Encode(b, in.Pos == 1)
 	case in.Class == "decl_encoding":
 		doc := append([]byte(`<?xml version="1.0" encoding="`+in.Blob+`"?>`), bases[in.Base]...)
 		enc = idp.Encode(doc, in.Pos == 1)
@@ -411,6 +419,16 @@ func (Garbage) Extra(tier string, seed int64) []orch.Case {
 			}
 		}
 	}
+	// every genuine message with its ID replaced by strings that are legal attribute values but mean something to
+	// path expressions, quoting and formatting code
+	for base, entries := range entryFor {
+		for _, id := range oddIDs {
+			for _, entry := range entries {
+				in, _ := json.Marshal(zInput{Entry: entry, Class: "id_chars", Base: base, Pos: len(id) % 2, Of: -1, Blob: id})
+				out = append(out, orch.Case{Src: "ids", Cfg: json.RawMessage(`{"sp":"normal"}`), Input: in, Seed: seed})
+			}
+		}
+	}
 	// every genuine message behind an XML declaration that names an encoding
 	for base, entries := range entryFor {
 		for _, label := range declEncodings {
@@ -424,6 +442,8 @@ func (Garbage) Extra(tier string, seed int64) []orch.Case {
 	}
 	return append(out, fuzzCases(tier, seed)...)
 }
+
+var oddIDs = []string{"_id'q", "_id[0]", "_a]b", `_a"b`, "_a/b", "_a=b", "_a*", "_a@b", "_(x)", "_a|b", "_a b", "", "_a'][@x='", "//*", "..", "_%s%d%v", "_{{.}}", "_a\\b", "_\u00e9\u4e2d", strings.Repeat("_long", 1200), "_a\tb", "_a&b<c>"}
 
 var declEncodings = []string{"UTF-8", "utf-8", "UTF8", "utf8", "UTF-16", "UTF-16LE", "UTF-16BE", "UTF-32", "ISO-8859-1", "iso-8859-15", "latin1", "windows-1252",
 	"us-ascii", "ASCII", "EBCDIC-CP-US", "UTF-7", "UTF-9", "WTF-8", "", " ", "x", "UTF-8 ", "KOI8-R", "Shift_JIS", "GB2312", "Big5", "ISO-10646-UCS-2", "unicode"}
